@@ -164,6 +164,7 @@ type sg struct {
 	rh            bool              // the constructs of the ring helpers (ringhelpers.go, hooks rh*) are enabled
 	rhConfigOK    bool              // snap.Config has been checked against the model's record
 	rhExtSigs     map[string]string // the signatures of package geomhelp
+	dio, dioAlias bool              // dedupeInnersOuters (dedupe.go): maps, ordered maps, two results; type IsOuter = bool seen
 	cur           *sgSig
 	n             int
 	loopN         int
@@ -179,6 +180,11 @@ func (g *sg) fresh(p string) string {
 func (g *sg) goType(x ast.Expr) (string, error) {
 	if g.rh {
 		if t, ok := g.rhType(x); ok {
+			return t, nil
+		}
+	}
+	if g.dio {
+		if t, ok := g.dioType(x); ok {
 			return t, nil
 		}
 	}
@@ -243,6 +249,11 @@ func (g *sg) conv(v sgVal, ty string) (sgVal, error) {
 
 // expr translates an expression; the reads that can fail are appended to binds, in evaluation order.
 func (g *sg) expr(env *sgEnv, x ast.Expr, binds *[]string) (sgVal, error) {
+	if g.dio {
+		if v, handled, err := g.dioExpr(env, x, binds); handled {
+			return v, err
+		}
+	}
 	switch x := x.(type) {
 	case *ast.ParenExpr:
 		return g.expr(env, x.X, binds)
@@ -622,6 +633,11 @@ func (g *sg) call(env *sgEnv, x *ast.CallExpr, binds *[]string) (sgVal, error) {
 			return v, err
 		}
 	}
+	if g.dio {
+		if v, handled, err := g.dioCall(env, x, binds); handled {
+			return v, err
+		}
+	}
 	if g.cleanup {
 		if id, ok := x.Fun.(*ast.Ident); ok && id.Name == "splitRing" {
 			// splitRing(ring, isOuter, hitMultiple, ringIdx): the model's splitRing; (hitMultiple, ringIdx) only
@@ -811,7 +827,7 @@ func sgAssigned(stmts []ast.Stmt, acc map[string]bool) {
 						}
 						return true
 					}
-					if sel, ok := c.Fun.(*ast.SelectorExpr); ok && sel.Sel.Name == "Insert" { // X.Insert(k, v) changes X
+					if sel, ok := c.Fun.(*ast.SelectorExpr); ok && (sel.Sel.Name == "Insert" || sel.Sel.Name == "Set") { // X.Insert(k, v), X.Set(k, v) change X
 						target(sel.X)
 						return true
 					}
@@ -902,6 +918,11 @@ func (g *sg) stmts(env *sgEnv, list []ast.Stmt, k lcont, ctx *sgCtx) (string, er
 			return k
 		}
 		return lcont{gen: func() (string, error) { return g.stmts(e, rest, k, ctx) }}
+	}
+	if g.dio {
+		if out, handled, err := g.dioStmt(env, s, rest, k, ctx, after); handled {
+			return out, err
+		}
 	}
 	switch s := s.(type) {
 	case *ast.ReturnStmt:
@@ -1509,7 +1530,7 @@ func (g *sg) signature(fd *ast.FuncDecl) (*sgSig, error) {
 		return g.rhSignature(fd)
 	}
 	sig := &sgSig{name: fd.Name.Name, mutated: -1}
-	if fd.Recv != nil || (fd.Type.TypeParams != nil && !(g.dedup && fd.Name.Name == "RemoveSequences")) {
+	if fd.Recv != nil || (fd.Type.TypeParams != nil && !(g.dedup && fd.Name.Name == "RemoveSequences") && !g.dioGeneric(fd.Name.Name)) {
 		return nil, fmt.Errorf("methods and generic functions are not supported")
 	}
 	for _, f := range fd.Type.Params.List {
@@ -1596,6 +1617,7 @@ func (g *sg) signature(fd *ast.FuncDecl) (*sgSig, error) {
 			return nil, fmt.Errorf("named results that are used are not supported")
 		}
 		sig.result, sig.retTy = stSets, stSets
+	case g.dioResults(fd, sig):
 	default:
 		return nil, fmt.Errorf("unsupported result list")
 	}
